@@ -698,6 +698,33 @@ pub fn c16(ctx: &mut Ctx) {
     }
     run_tris(ctx, std::mem::take(&mut tris));
 
+    // (f') every rendering style through the whole entry point, on either carrier: a correctly signed
+    // request whose timestamp is written in any accepted form must be accepted (inside the window), and
+    // the scope date demanded must be the UTC date of the instant
+    {
+        use crate::gen::*;
+        use crate::props_validate::{job, run_jobs, simple_logical, Expect};
+        let mut jobs = Vec::new();
+        let offs: [i64; 7] = [0, 3600, -3600, 5 * 3600 + 2700, -(9 * 3600 + 1800), 14 * 3600, -1800];
+        for k in 0..ctx.n(160, 1600) {
+            let carrier = if k % 2 == 0 { Carrier::Header } else { Carrier::Query };
+            // instants around midnight UTC so that local and UTC dates differ for most offsets
+            let t = (16677i128 * 86400 + [30i128, 86370, 43200, 600, 85800][k % 5]) * 1_000_000_000 + if k % 3 == 0 { 123_456_789 } else { 0 };
+            let mut l = simple_logical(carrier, t);
+            l.time_style = (offs[k % offs.len()], (k * 7 % 128) as u8, if k % 4 == 1 { 1 + k % 11 } else { 0 });
+            l.use_date_header = k % 10 == 4;
+            let now = now_for(&l, (k as i128 % 7 - 3) * 100_000_000_000);
+            let s = sign_and_spell(&l, &mut rng, &Spelling::plain(), now);
+            if ctx.rep.samples.len() < 8 && k < 3 {
+                ctx.rep.sample(format!("carrier {:?}: timestamp text \"{}\"", l.carrier, render_time(l.time_ns, l.time_style)));
+            }
+            let mut j = job(s.case, Expect::Accept, "c16-carrier", "C16: a well-formed ISO-8601 timestamp, delivered by this carrier, was not accepted with its exact value");
+            j.expect_calls = Some(1);
+            jobs.push(j);
+        }
+        run_jobs(ctx, "VALIDATE", jobs);
+    }
+
     // (g) compact rendering: the instant read back and its YYYYMMDD'T'hhmmss'Z' line (model vs reference)
     let mut lines = Vec::new();
     let mut want = Vec::new();
